@@ -21,6 +21,8 @@ MUTANTS = [
     ("C01", "silent", F, "        symbol, isotope, ion, count = tokens[0:4]", "        symbol, isotope = tokens[0:2]\n        ion, count = tokens[2:4]", "split unpacking"),
     ("C01", "fire", F, "        if isotope != 0:\n            symbol = symbol[isotope]\n        if ion != 0:\n            symbol = symbol.ion[ion]",
      "        if ion != 0:\n            symbol = symbol.ion[ion]", "isotope tag ignored"),
+    ("C01", "fire", F, "    formula = (ungrouped_mixture | compound | grouped_mixture)", "    formula = (compound | ungrouped_mixture | grouped_mixture)", "compound tried before the mixtures: '2L H2O@1' is rejected (reverse of the fix)"),
+    ("C01", "silent", F, "    formula = (ungrouped_mixture | compound | grouped_mixture)", "    formula = (ungrouped_mixture | grouped_mixture | compound)", "grouped mixture before compound (disjoint first characters)"),
     # ---- C02
     ("C02", "fire", F, "ret.structure = ((other*q, f), )", "ret.structure = ((other+q, f), )", "single-fragment shortcut adds"),
     ("C02", "silent", F, "ret.structure = ((other*q, f), )", "ret.structure = ((q*other, f), )", "commuted product"),
